@@ -41,6 +41,8 @@ impl<T: Show> Show for [T] { fn show(&self) -> String { format!("[{}]", self.ite
 impl<T: Show + ?Sized> Show for &mut T { fn show(&self) -> String { format!("&mut {}", (**self).show()) } }
 impl Show for i32 { fn show(&self) -> String { format!("{self}") } }
 impl Show for () { fn show(&self) -> String { "()".into() } }
+impl<'x> Show for dyn std::fmt::Display + 'x { fn show(&self) -> String { format!("{self}") } }
+impl<'x> Show for Box<dyn std::fmt::Display + 'x> { fn show(&self) -> String { format!("box {self}") } }
 impl Show for unimock::Impossible { fn show(&self) -> String { "Impossible".into() } }
 impl<T: Show + ?Sized> Show for &T {
     fn show(&self) -> String { format!("&{}", (**self).show()) }
